@@ -474,17 +474,23 @@ func c04Walk(c *Ctx) *RuleResult {
 		}
 		// step statement: X = X.parent
 		var step *ast.AssignStmt
-		ast.Inspect(loop.Body, func(n ast.Node) bool {
-			if as, ok := n.(*ast.AssignStmt); ok && len(as.Lhs) == 1 && len(as.Rhs) == 1 && as.Tok == token.ASSIGN {
-				// X = X.parent, possibly through a local that holds X.parent
-				if src := resolveLocalAlias(u, as.Rhs[0]); fieldOf(info, src) == parent {
-					if id, ok := as.Lhs[0].(*ast.Ident); ok && exprStr(ast.Unparen(src).(*ast.SelectorExpr).X) == id.Name {
-						step = as
+		stepSearch := []ast.Node{loop.Body}
+		if loop.Post != nil {
+			stepSearch = append(stepSearch, loop.Post)
+		}
+		for _, root := range stepSearch {
+			ast.Inspect(root, func(n ast.Node) bool {
+				if as, ok := n.(*ast.AssignStmt); ok && len(as.Lhs) == 1 && len(as.Rhs) == 1 && as.Tok == token.ASSIGN {
+					// X = X.parent, possibly through a local that holds X.parent
+					if src := resolveLocalAlias(u, as.Rhs[0]); fieldOf(info, src) == parent {
+						if id, ok := as.Lhs[0].(*ast.Ident); ok && exprStr(ast.Unparen(src).(*ast.SelectorExpr).X) == id.Name {
+							step = as
+						}
 					}
 				}
-			}
-			return true
-		})
+				return true
+			})
+		}
 		if step == nil {
 			continue
 		}
